@@ -101,6 +101,7 @@ Proof. exact id_head_version_monotone. Qed.
 Print Assumptions c14_head_version_monotone.
 Theorem c14_version_bump_inside_retry_loop : push_bump_in_loop = 1.
 Proof. reflexivity. Qed.
+Print Assumptions c14_version_bump_inside_retry_loop.
 
 (* an allocate that runs alone while the free list is not empty returns its top and mints nothing *)
 Theorem c14_reuse_when_quiet : forall c progs sch, no_wrap_in_window c progs sch ->
@@ -134,6 +135,7 @@ Theorem c14_for_each_bound_in_id_type_refuted :
   exists capacity next, 0 < next <= 65534 /\ next <= capacity /\ capacity mod FREE_BLOCK = 0 /\
                         Z.min (capacity mod (65535 + 1)) next = 0.
 Proof. exists 65536, 65534. repeat split; try reflexivity; discriminate. Qed.
+Print Assumptions c14_for_each_bound_in_id_type_refuted.
 
 (* thread ids: two different threads never own the same value, whatever the order of births and deaths *)
 Theorem c14_thread_ids : forall c progs sch, no_wrap_in_window c progs sch ->
